@@ -205,6 +205,20 @@ CHECKS['C09'] = dict(
     technique='symbolic execution of the Python source + Z3 per path (bounded: one geometry, iteration cap 3); concrete sampling for solver convergence',
 )
 
+CHECKS['C11'] = dict(
+    level='model_checking',
+    text='Symbolic execution of SP.inverseJacobian / carryMassCalc / sumActuatorWrenches and Robot.staticForces(Inv)(Body) with BOTH '
+         'plate poses, the twist, the wrench and the leg forces symbolic: rows of the inverse Jacobian are [b_i x n_i, n_i]; row . twist '
+         '= d|t_i - b_i|/dt for the point carried by the spatial twist; leg forces satisfy sum f_i [t_i x n_i, n_i] = applied wrench '
+         '(space) resp. Ad(T^-1)^T * body wrench (body); staticForcesInv(Body) inverts them; sumActuatorWrenches = - that sum for '
+         'arbitrary forces; carryMassCalc loads the legs with wrench + top plate and shaft weights at their centres of gravity and '
+         'returns the total with motor and bottom-plate weights; queries restore poses, joints, lengths. The pseudo-inverse is '
+         'modelled by its defining linear equations (non-singular case). Default-argument calls with the real pseudo-inverse, '
+         'Richardson differences and the condition-number bound of the property: concrete sampling over the geometry ranges.',
+    design='5/C11',
+    technique='symbolic execution of the Python source, exact normal forms modulo the defining equations of the linear solves + Z3 for path feasibility (bounded: one geometry)',
+)
+
 NOT_APPLICABLE = {
 }
 
